@@ -675,6 +675,37 @@ func c01More(c *Ctx, ix *PkgIndex) {
 		c.Check(good, "R9", "sdk/trace|(*batchSpanProcessor).ForceFlush|export starts only after <-flushCh (or when the marker could not be enqueued)", at(ix.M, ff.Pos()),
 			"everything queued before the call has been batched when the export runs", "ForceFlush can return before spans ended earlier were exported: "+why)
 	}
+	// the flush marker is always enqueued with the blocking send (a dropped marker makes ForceFlush export too early)
+	if ffs := lookupType(ix.Pkg, "forceFlushSpan"); ffs != nil {
+		enq := ix.Func("(*batchSpanProcessor).enqueueBlockOnQueueFull")
+		n := 0
+		for _, s := range ix.FindNodes(func(f *FuncInfo, nd ast.Node) bool {
+			cl, ok := nd.(*ast.CompositeLit)
+			return ok && types.Identical(info.Types[cl].Type, ffs)
+		}) {
+			n++
+			use, ctx := classifyUse2(s.F, s.N.(ast.Expr))
+			good := use == "arg" && callToDecl(info, enq)(ctx)
+			c.Check(good, "R9", "sdk/trace|"+ix.Outer(s.F).Name+"|flush marker #"+itoa(n)+" enqueued with the blocking send", ix.at(s), "enqueueBlockOnQueueFull(ctx, forceFlushSpan{…})",
+				"the flush marker can be dropped when the queue is full (non-blocking path): ForceFlush then exports and returns while accepted spans are still queued")
+		}
+		if n == 0 {
+			c.Violation("R9", "sdk/trace|ForceFlush|flush marker", at(ix.M, ix.Pkg.Syntax[0].Pos()), "no forceFlushSpan marker is created any more")
+		}
+	}
+	// Shutdown cannot return without going through stopOnce.Do (Once.Do blocks a concurrent caller until the first one has finished)
+	if sh := c.Fn(ix, "R9", "(*batchSpanProcessor).Shutdown"); sh != nil {
+		g := ix.FG(sh)
+		fOnce := lookupField(ix.Pkg, "batchSpanProcessor", "stopOnce")
+		do := toSet(g.Match(func(n ast.Node) bool { return fieldMethodCall(info, n, fOnce, "Do") != nil }))
+		s, par := g.ReachFromEntry(func(x *GNode) bool { return do[x] }, nil)
+		why := ""
+		if s[g.Exit] {
+			why = g.pathLines(par, g.Exit)
+		}
+		c.Check(len(do) == 1 && !s[g.Exit], "R9", "sdk/trace|(*batchSpanProcessor).Shutdown|every return passes stopOnce.Do", at(ix.M, sh.Pos()), "a concurrent second Shutdown waits for the first one's drain",
+			"a Shutdown call can return nil without waiting for the drain started by a concurrent Shutdown (spans not yet exported when it returns, exports after it returned): "+why)
+	}
 	if dq := c.Fn(ix, "R9", "(*batchSpanProcessor).drainQueue"); dq != nil {
 		g := ix.FG(dq)
 		ex := toSet(g.Match(isExport))
@@ -819,4 +850,36 @@ func storeBeforeSite(ix *PkgIndex, info *types.Info, top *FuncInfo, site Site, f
 		anchor = f.Lit
 		f = ix.Parent[f.Lit]
 	}
+}
+
+// classifyUse2: like classifyUse but for any expression node: "arg" (ctx = the call) or "other".
+func classifyUse2(f *FuncInfo, e ast.Expr) (string, ast.Node) {
+	var use string = "other"
+	var ctx ast.Node
+	var stack []ast.Node
+	ast.Inspect(f.Body(), func(n ast.Node) bool {
+		if n == nil {
+			stack = stack[:len(stack)-1]
+			return false
+		}
+		if n == ast.Node(e) {
+			for i := len(stack) - 1; i >= 0; i-- {
+				switch x := stack[i].(type) {
+				case *ast.ParenExpr:
+					continue
+				case *ast.CallExpr:
+					for _, a := range x.Args {
+						if unparen(a) == e {
+							use, ctx = "arg", x
+						}
+					}
+				}
+				break
+			}
+			return false
+		}
+		stack = append(stack, n)
+		return true
+	})
+	return use, ctx
 }
